@@ -172,6 +172,9 @@ func (e *Env) evalIdent(n *ast.Ident) Val {
 		return v
 	}
 	if id, ok := ghostGlobals[n.Name]; ok {
+		if n.Name == "crashed" {
+			return boolVal(e.r.bind(e.st, sx("select", e.st.heap["B"], sx("fld", ghostRoot, fmt.Sprint(id))), n.Name, "Bool"))
+		}
 		return intVal(e.r.bind(e.st, sx("select", e.st.heap["I"], sx("fld", ghostRoot, fmt.Sprint(id))), n.Name, "Int"), nil)
 	}
 	if n.Name == "alloc0" {
@@ -553,6 +556,9 @@ func (e *Env) evalAddr(x ast.Expr) (ref string, t types.Type, ghostSort string) 
 		return e.evalAddr(n.X)
 	case *ast.Ident:
 		if id, ok := ghostGlobals[n.Name]; ok {
+			if n.Name == "crashed" {
+				return sx("fld", ghostRoot, fmt.Sprint(id)), nil, "Bool"
+			}
 			return sx("fld", ghostRoot, fmt.Sprint(id)), nil, "Int"
 		}
 		if _, isVar := e.vars[n.Name]; !isVar && e.fn != nil {
@@ -646,6 +652,23 @@ func (e *Env) evalAddr(x ast.Expr) (ref string, t types.Type, ghostSort string) 
 		}
 		e.fail("no field or ghost field %q on %s (type %v)", name, exprString(n.X), baseT)
 		return "null", nil, ""
+	}
+	if call, ok := x.(*ast.CallExpr); ok {
+		if id, ok := call.Fun.(*ast.Ident); ok && (id.Name == "file" || id.Name == "fexists") && len(call.Args) == 1 {
+			p := e.eval(call.Args[0])
+			if e.err != nil {
+				return "null", nil, ""
+			}
+			if p.K != KSeq {
+				e.fail("%s(path): path must be a string", id.Name)
+				return "null", nil, ""
+			}
+			cell := sx("elt", sx("fld", ghostRoot, "10"), sx("strkey", p.S))
+			if id.Name == "file" {
+				return sx("fld", cell, "0"), nil, "BSeq"
+			}
+			return sx("fld", cell, "1"), nil, "Bool"
+		}
 	}
 	e.fail("not addressable: %s", exprString(x))
 	return "null", nil, ""
@@ -1087,6 +1110,13 @@ func (e *Env) evalCall(n *ast.CallExpr) Val {
 			pats = append(pats, s)
 		}
 		return boolVal("(! " + b.S + " :pattern (" + strings.Join(pats, " ") + "))")
+	case "file", "fexists":
+		// ghost file system: one cell per path under the ghost root (content / existence)
+		ref, _, gs := e.evalAddr(n)
+		if e.err != nil {
+			return boolVal("false")
+		}
+		return e.loadGhost(ref, gs, fname)
 	case "recvsum", "recvcount", "sentcount", "chanclosed":
 		v := arg(0)
 		id := map[string]int{"recvsum": 901, "recvcount": 902, "sentcount": 903, "chanclosed": 904}[fname]
